@@ -11,14 +11,19 @@ directory walk and per-member checks, `.npy` header parser, `from_numpy_vectors`
 
 namespace FileFmt
 
-/-- `np.savez` / `np.savez_compressed` on the arrays: the archive starts at offset 0 of the blob -/
-def npzBytes (crc32 : Bytes → Nat) (deflate : Option (Bytes → Bytes)) (μ : Nat → ZMeta) (ms : List NpyMember) : Bytes :=
-  zipBytes 0 (mkEntries crc32 deflate μ 0 (npzArchive ms))
+/-- `np.savez` / `np.savez_compressed` on the arrays, into a file positioned at `base`: `zipfile` (mode `'w'`) records
+    ABSOLUTE file positions, so the offsets inside the blob start at `base`, not at 0 -/
+def npzBytes (crc32 : Bytes → Nat) (deflate : Option (Bytes → Bytes)) (μ : Nat → ZMeta) (base : Nat) (ms : List NpyMember) : Bytes :=
+  zipBytes base (mkEntries crc32 deflate μ 0 (npzArchive ms))
+
+/-- where `_to_file_numpy` starts writing the blob: after the header, `BIAS` and the 4-byte length -/
+def dqmBlobBase (ignore : Bool) (c : DqmContent) (labels : List FLabel) : Nat :=
+  (makeHeader dqmPrefix 1 1 (dqmHeaderText (dqmCounts c) (dqmVariablesFlag ignore labels))).length + 8
 
 def dumpDqm (crc32 : Bytes → Nat) (deflate : Option (Bytes → Bytes)) (μ : Nat → ZMeta) (ignore : Bool) (c : DqmContent)
     (labels : List FLabel) : Bytes :=
   dqmEncode (dqmHeaderText (dqmCounts c) (dqmVariablesFlag ignore labels)) (dqmVariablesFlag ignore labels)
-    (npzBytes crc32 deflate μ (dqmMembers c)) (varsTextOf labels)
+    (npzBytes crc32 deflate μ (dqmBlobBase ignore c labels) (dqmMembers c)) (varsTextOf labels)
 
 /-- `np.load(blob)` + `from_numpy_vectors` -/
 def readDqmBlob (crc32 : Bytes → Nat) (inflate : Bytes → Option Bytes) (r : EndRec) (blob : Bytes) : Option DqmContent :=
@@ -40,11 +45,11 @@ theorem npzArchive_names_ascii (c : DqmContent) : ∀ x ∈ npzArchive (dqmMembe
 
 /-- the blob reader on the blob the writer wrote -/
 theorem readDqmBlob_npz (crc32 : Bytes → Nat) (inflate : Bytes → Option Bytes) (deflate : Option (Bytes → Bytes)) (μ : Nat → ZMeta)
-    (c : DqmContent) (wf : DqmWF c) (hnpy : ∀ m ∈ dqmMembers c, m.OK)
+    (base : Nat) (c : DqmContent) (wf : DqmWF c) (hnpy : ∀ m ∈ dqmMembers c, m.OK)
     (hcrc : ∀ b, crc32 b < 256 ^ 4) (hcodec : ∀ d, deflate = some d → ∀ b, inflate (d b) = some b) (hμ : ∀ i, (μ i).OK)
     (hfit : ∀ m ∈ npzArchive (dqmMembers c), MemberFits deflate m)
-    (hsize : (npzBytes crc32 deflate μ (dqmMembers c)).length < 4294967295) :
-    ∃ x e, npzBytes crc32 deflate μ (dqmMembers c) = x ++ e ∧ e.length = 22 ∧ e.take 4 = sigEOCD ∧ e.drop 20 = [0, 0] ∧
+    (hsize : base + (npzBytes crc32 deflate μ base (dqmMembers c)).length < 4294967295) :
+    ∃ x e, npzBytes crc32 deflate μ base (dqmMembers c) = x ++ e ∧ e.length = 22 ∧ e.take 4 = sigEOCD ∧ e.drop 20 = [0, 0] ∧
       (EndRec.mk x.length e).sizeCd ≤ x.length ∧ (x ++ e).take 4 = sigLocal ∧
       readNpzBytes crc32 inflate ⟨x.length, e⟩ (x ++ e) = some (dqmMembers c) ∧
       readDqmBlob crc32 inflate ⟨x.length, e⟩ (x ++ e) = some c := by
@@ -56,20 +61,20 @@ theorem readDqmBlob_npz (crc32 : Bytes → Nat) (inflate : Bytes → Option Byte
   unfold npzBytes at hsize ⊢
   generalize mkEntries crc32 deflate μ 0 (npzArchive (dqmMembers c)) = zs at hzs hlenz hmem hne hsize ⊢
   have hcnt : zs.length < 256 ^ 2 := by rw [hlenz]; simp [npzArchive, dqmMembers]
-  have hsz : ([] : Bytes).length + (zipLocals zs).length + (zipCD ([] : Bytes).length zs).length < 4294967295 := by
-    simp only [zipBytes, List.length_append, List.length_nil] at hsize ⊢; omega
-  obtain ⟨a, b, cc⟩ := eocdRecord_shape zs.length (zipCD 0 zs).length (0 + (zipLocals zs).length)
-  obtain ⟨d, _, _⟩ := eocdRecord_fields zs.length (zipCD 0 zs).length (0 + (zipLocals zs).length)
-    (zipLocals zs ++ zipCD 0 zs).length (by simp only [List.length_nil] at hsz; omega) (by simp only [List.length_nil] at hsz; omega) hcnt
-  have hnpz : readNpzBytes crc32 inflate ⟨(zipLocals zs ++ zipCD 0 zs).length, eocdRecord zs.length (zipCD 0 zs).length (0 + (zipLocals zs).length)⟩
-      ((zipLocals zs ++ zipCD 0 zs) ++ eocdRecord zs.length (zipCD 0 zs).length (0 + (zipLocals zs).length)) = some (dqmMembers c) := by
-    have hr := readDirBytes_zipBytes crc32 inflate [] zs hzs hcnt hsz
-    simp only [List.nil_append, List.length_nil] at hr
+  have hsz : base + (zipLocals zs).length + (zipCD base zs).length < 4294967295 := by
+    simp only [zipBytes, List.length_append] at hsize ⊢; omega
+  obtain ⟨a, b, cc⟩ := eocdRecord_shape zs.length (zipCD base zs).length (base + (zipLocals zs).length)
+  obtain ⟨d, _, _⟩ := eocdRecord_fields zs.length (zipCD base zs).length (base + (zipLocals zs).length)
+    (zipLocals zs ++ zipCD base zs).length (by omega) (by omega) hcnt
+  have hnpz : readNpzBytes crc32 inflate ⟨(zipLocals zs ++ zipCD base zs).length, eocdRecord zs.length (zipCD base zs).length (base + (zipLocals zs).length)⟩
+      ((zipLocals zs ++ zipCD base zs) ++ eocdRecord zs.length (zipCD base zs).length (base + (zipLocals zs).length)) = some (dqmMembers c) := by
+    have hr := readDirBytes_zipBytes_shift crc32 inflate [] base zs hzs hcnt hsz
+    simp only [List.nil_append] at hr
     unfold readNpzBytes readDirChars
     rw [hr, hmem]
     simp only [Option.map_some, Option.bind_some]
     rw [asciiRoundtrip_members _ (npzArchive_names_ascii c), npzMembersOf_archive _ hnpy]
-  refine ⟨zipLocals zs ++ zipCD 0 zs, eocdRecord zs.length (zipCD 0 zs).length (0 + (zipLocals zs).length), ?_, a, b, cc, ?_, ?_, hnpz, ?_⟩
+  refine ⟨zipLocals zs ++ zipCD base zs, eocdRecord zs.length (zipCD base zs).length (base + (zipLocals zs).length), ?_, a, b, cc, ?_, ?_, hnpz, ?_⟩
   · simp [zipBytes, List.append_assoc]
   · rw [d]; simp only [List.length_append]; omega
   · obtain ⟨z, zs', rfl⟩ := hne
